@@ -205,6 +205,47 @@ theorem hash_ignores_auth (tx : Tx) (agg : Option AggSig) (sigs : List SigMap) :
 set_option maxRecDepth 100000 in
 example : payloadBytes sampleSigned = payloadBytes sampleAggSparse := by decide
 
+/-- An accepted *unsigned* transaction is its own payload encoding (so `PayloadMarshal` and
+    `PayloadHash` of a decoded unsigned transaction are functions of the accepted bytes — and
+    of nothing the caller does with its buffer afterwards; the `alias` correspondence stream
+    holds the implementation to this). -/
+theorem unsigned_is_own_payload {b : Bytes} {tx : Tx} (h : decodeTx b = some tx)
+    (ha : tx.agg = none) (hs : tx.sigs = []) : payloadBytes tx = b := by
+  have hb := decode_canonical h
+  obtain ⟨p, agg, sigs⟩ := tx
+  simp only at ha hs
+  subst ha hs
+  exact hb
+
+theorem encAuth_length_ge (agg : Option AggSig) (sigs : List SigMap) : 2 ≤ (encAuth agg sigs).length := by
+  cases agg with
+  | none => simp [encAuth, writeU16]
+  | some a => simp [encAuth, encAgg, writeU16]
+
+/-- `PayloadMarshal` of an accepted transaction never trips its debug self-check and is the
+    payload encoding of the decoded value — for signed and unsigned transactions alike. -/
+theorem payloadMarshal_decoded {b : Bytes} {tx : Tx} (h : decodeTx b = some tx) :
+    payloadMarshal tx = some (payloadBytes tx) := by
+  obtain ⟨⟨hrep, hg⟩, ⟨hc, hsize⟩, hb⟩ := (decodeTx_iff b tx).mp h
+  unfold payloadMarshal
+  have hwf : WF { tx with agg := none, sigs := [] } := by
+    constructor
+    · simp only [rep, Bool.and_eq_true] at hrep ⊢
+      exact ⟨hrep.1, by simp [repAuth]⟩
+    · simp only [guards, Bool.and_eq_true] at hg ⊢
+      exact ⟨hg.1, by simp [guardsAuth, maxEncodingInt]⟩
+  have hcan : Canon { tx with agg := none, sigs := [] } := by
+    constructor
+    · simp only [canon, Bool.and_eq_true] at hc ⊢
+      exact ⟨⟨⟨hc.1.1.1, hc.1.1.2⟩, by simp [sliceCountLimit]⟩, by simp⟩
+    · have h1 : (encodeTx { tx with agg := none, sigs := [] }).length = (encPayload tx.toPayload).length + 2 := by
+        simp [encodeTx, encAuth, writeU16]
+      have h2 : (encodeTx tx).length = (encPayload tx.toPayload).length + (encAuth tx.agg tx.sigs).length := by
+        simp [encodeTx]
+      have := encAuth_length_ge tx.agg tx.sigs
+      omega
+  exact marshal_total _ hwf hcan
+
 theorem payloadBytes_eq (tx : Tx) : payloadBytes tx = encPayload tx.toPayload ++ encAuth none [] := rfl
 
 /-- Two well-formed transactions with the same payload encoding have the same payload
